@@ -1,0 +1,79 @@
+//go:build verif
+
+// Contracts for package pickle (comment-only; read by /verif/govc, ignored by the compiler).
+package pickle
+
+// ---------------------------------------------------------------- decoder: fixed-width reads (bit-vector mode)
+
+//@ specfn le32(smt:(Array~IDX~BYTE), int) bv32
+//@ specfn le64(smt:(Array~IDX~BYTE), int) bv64
+//@ smt bv <<<
+//@ (define-fun le32 ((a (Array (_ BitVec 64) (_ BitVec 8))) (p (_ BitVec 64))) (_ BitVec 32)
+//@   (concat (select a (bvadd p (_ bv3 64))) (select a (bvadd p (_ bv2 64))) (select a (bvadd p (_ bv1 64))) (select a p)))
+//@ (define-fun le64 ((a (Array (_ BitVec 64) (_ BitVec 8))) (p (_ BitVec 64))) (_ BitVec 64)
+//@   (concat (select a (bvadd p (_ bv7 64))) (select a (bvadd p (_ bv6 64))) (select a (bvadd p (_ bv5 64))) (select a (bvadd p (_ bv4 64)))
+//@           (select a (bvadd p (_ bv3 64))) (select a (bvadd p (_ bv2 64))) (select a (bvadd p (_ bv1 64))) (select a p)))
+//@ >>>
+
+//@ func (pickle.reader).Read
+//@   mode bv
+//@   ensures adv: result.0 == len(b) && result.1 == nil && ipos[r.r] == old(ipos)[r.r] + len(b)
+//@   ensures f1: len(b) >= 1 ==> b[0] == ibytes[r.r][old(ipos)[r.r]]
+//@   ensures f2: len(b) >= 2 ==> b[1] == ibytes[r.r][old(ipos)[r.r] + 1]
+//@   ensures f3: len(b) >= 3 ==> b[2] == ibytes[r.r][old(ipos)[r.r] + 2]
+//@   ensures f4: len(b) >= 4 ==> b[3] == ibytes[r.r][old(ipos)[r.r] + 3]
+//@   ensures f5: len(b) >= 5 ==> b[4] == ibytes[r.r][old(ipos)[r.r] + 4]
+//@   ensures f6: len(b) >= 6 ==> b[5] == ibytes[r.r][old(ipos)[r.r] + 5]
+//@   ensures f7: len(b) >= 7 ==> b[6] == ibytes[r.r][old(ipos)[r.r] + 6]
+//@   ensures f8: len(b) >= 8 ==> b[7] == ibytes[r.r][old(ipos)[r.r] + 7]
+//@   ensures others: forall o: value :: o != r.r ==> ipos[o] == old(ipos)[o]
+//@   ensures same-input: ibytes == old(ibytes)
+//@   modifies elems(b), ipos
+
+//@ func (*pickle.Decoder).readByte
+//@   mode bv
+//@   requires d != nil
+//@   ensures value: result == ibytes[d.r.r][old(ipos)[d.r.r]]
+//@   ensures adv: ipos[d.r.r] == old(ipos)[d.r.r] + 1
+//@   ensures others: forall o: value :: o != d.r.r ==> ipos[o] == old(ipos)[o]
+//@   ensures same-input: ibytes == old(ibytes)
+//@   modifies ipos
+
+//@ func (*pickle.Decoder).readUint32
+//@   mode bv
+//@   requires d != nil
+//@   ensures value: result == le32(ibytes[d.r.r], old(ipos)[d.r.r])
+//@   ensures adv: ipos[d.r.r] == old(ipos)[d.r.r] + 4
+//@   ensures others: forall o: value :: o != d.r.r ==> ipos[o] == old(ipos)[o]
+//@   ensures same-input: ibytes == old(ibytes)
+//@   modifies ipos
+
+//@ func (*pickle.Decoder).readUint64
+//@   mode bv
+//@   requires d != nil
+//@   ensures value: result == le64(ibytes[d.r.r], old(ipos)[d.r.r])
+//@   ensures adv: ipos[d.r.r] == old(ipos)[d.r.r] + 8
+//@   ensures others: forall o: value :: o != d.r.r ==> ipos[o] == old(ipos)[o]
+//@   ensures same-input: ibytes == old(ibytes)
+//@   modifies ipos
+
+// ---------------------------------------------------------------- decoder: stack and dispatch steps
+
+//@ func (*pickle.Decoder).push variant bv
+//@   mode bv
+//@   requires d != nil
+//@   ensures  top: len(d.stack) == old(len(d.stack)) + 1 && d.stack[old(len(d.stack))] == x
+//@   ensures  rest: forall i: int :: 0 <= i && i < old(len(d.stack)) ==> d.stack[i] == old(d.stack[i])
+//@   modifies d.stack
+
+// One iteration of the dispatch loop, per scalar opcode: with p the input position and n the stack
+// height at the start of the iteration, the iteration consumes exactly the opcode's field and pushes
+// the value the wire format denotes.
+//@ func (*pickle.Decoder).decode variant bv
+//@   mode bv
+//@   requires d != nil
+//@   modifies heap, ipos
+//@   loop 0: step BININT1: when op == 75 ensures ipos[d.r.r] == old(ipos)[d.r.r] + 2 && len(d.stack) == old(len(d.stack)) + 1 && d.stack[old(len(d.stack))] == mkint(conv("int", ibytes[d.r.r][old(ipos)[d.r.r] + 1]))
+//@   loop 0: step BININT2: when op == 77 ensures ipos[d.r.r] == old(ipos)[d.r.r] + 3 && len(d.stack) == old(len(d.stack)) + 1 && d.stack[old(len(d.stack))] == mkint(conv("int", ibytes[d.r.r][old(ipos)[d.r.r] + 1]) | (conv("int", ibytes[d.r.r][old(ipos)[d.r.r] + 2]) << 8))
+//@   loop 0: step BININT: when op == 74 ensures ipos[d.r.r] == old(ipos)[d.r.r] + 5 && len(d.stack) == old(len(d.stack)) + 1 && d.stack[old(len(d.stack))] == mkint(conv("int", conv("int32", le32(ibytes[d.r.r], old(ipos)[d.r.r] + 1))))
+//@   loop 0: step BINFLOAT: when op == 71 ensures ipos[d.r.r] == old(ipos)[d.r.r] + 9 && len(d.stack) == old(len(d.stack)) + 1 && d.stack[old(len(d.stack))] == ifaceas("starlark.Float", f64frombits(le64(ibytes[d.r.r], old(ipos)[d.r.r] + 1)))
